@@ -144,7 +144,21 @@ func (c *afCfg) injected() ociauth.HelperRunner {
 			return ociauth.ConfigEntry{Username: string(b.User) + "@" + url, Password: string(b.Secret)}, nil
 		case "token":
 			return ociauth.ConfigEntry{RefreshToken: string(b.Secret)}, nil
-		case "notfound":
+		case "notfound", "emptyobj", "urlonly":
+			return ociauth.ConfigEntry{}, nil
+		case "extra":
+			return ociauth.ConfigEntry{Username: string(b.User) + "@" + url, Password: string(b.Secret)}, nil
+		case "useronly":
+			return ociauth.ConfigEntry{Username: string(b.User) + "@" + url}, nil
+		case "secretonly":
+			return ociauth.ConfigEntry{Password: string(b.Secret)}, nil
+		case "mixed": // what the helper knows depends on the host asked about
+			switch afHostClass(url) {
+			case 1:
+				return ociauth.ConfigEntry{Username: string(b.User) + "@" + url, Password: string(b.Secret)}, nil
+			case 2:
+				return ociauth.ConfigEntry{Username: string(b.User) + "@" + url}, nil
+			}
 			return ociauth.ConfigEntry{}, nil
 		case "nobinary":
 			return ociauth.ConfigEntry{}, fmt.Errorf("%w: docker-credential-%s", ociauth.ErrHelperNotFound, name)
@@ -153,13 +167,35 @@ func (c *afCfg) injected() ociauth.HelperRunner {
 	}
 }
 
+func afHostClass(url string) int {
+	if url == "" {
+		return 0
+	}
+	return int(url[len(url)-1]) % 3
+}
+
 // writeHelpers installs docker-credential-<name> programs that behave as scripted.
 func (c *afCfg) writeHelpers(dir string) error {
 	for name, b := range c.Helpers {
 		var body string
+		full := fmt.Sprintf("printf '{\"Username\":\"%%s@%%s\",\"Secret\":\"%%s\"}' '%s' \"$url\" '%s'\n", b.User, b.Secret)
+		uonly := fmt.Sprintf("printf '{\"Username\":\"%%s@%%s\"}' '%s' \"$url\"\n", b.User)
 		switch b.Kind {
 		case "creds":
-			body = fmt.Sprintf("read -r url || true\nprintf '{\"Username\":\"%%s@%%s\",\"Secret\":\"%%s\"}' '%s' \"$url\" '%s'\n", b.User, b.Secret)
+			body = full
+		case "extra":
+			body = fmt.Sprintf("printf '{\"ServerURL\":\"%%s\",\"Extra\":{\"a\":[1]},\"Username\":\"%%s@%%s\",\"Secret\":\"%%s\",\"secret2\":\"x\"}' \"$url\" '%s' \"$url\" '%s'\n", b.User, b.Secret)
+		case "useronly":
+			body = uonly
+		case "secretonly":
+			body = fmt.Sprintf("printf '{\"Secret\":\"%%s\"}' '%s'\n", b.Secret)
+		case "emptyobj":
+			body = "printf '{}'\n"
+		case "urlonly":
+			body = "printf '{\"ServerURL\":\"%s\"}' \"$url\"\n"
+		case "mixed":
+			body = "c=0\nif [ -n \"$url\" ]; then c=$(( $(printf '%d' \"'${url#\"${url%?}\"}\") % 3 )); fi\n" +
+				"case $c in\n1) " + full + ";;\n2) " + uonly + ";;\n*) printf '{}'\n;;\nesac\n"
 		case "token":
 			body = fmt.Sprintf("printf '{\"Username\":\"<token>\",\"Secret\":\"%%s\"}' '%s'\n", b.Secret)
 		case "notfound":
@@ -169,6 +205,8 @@ func (c *afCfg) writeHelpers(dir string) error {
 		default:
 			body = "echo 'the keychain is locked'\nexit 1\n"
 		}
+		// every program first reads the server URL and notes that it was run
+		body = "read -r url || true\nprintf '%s\\t%s\\n' '" + name + "' \"$url\" >> \"$AF_LOG\"\n" + body
 		if err := os.WriteFile(filepath.Join(dir, "docker-credential-"+name), []byte("#!/bin/sh\n"+body), 0o755); err != nil {
 			return err
 		}
@@ -217,6 +255,7 @@ func (r *afRunner) runCase(id int, cs afCase) error {
 		return err
 	}
 	var base ociauth.HelperRunner
+	logFile := "" // exec mode: the helper programs note their invocations here
 	if cs.Mode == "exec" {
 		bin := filepath.Join(dir, "bin")
 		if err := os.MkdirAll(bin, 0o755); err != nil {
@@ -229,7 +268,8 @@ func (r *afRunner) runCase(id int, cs afCase) error {
 		old := os.Getenv("PATH")
 		os.Setenv("PATH", bin+string(os.PathListSeparator)+old)
 		defer os.Setenv("PATH", old)
-		env = append(env, "PATH="+old)
+		logFile = filepath.Join(dir, "helper.log")
+		env = append(env, "PATH="+old, "AF_LOG="+logFile)
 		base = ociauth.ExecHelperWithEnv(env)
 	} else {
 		cs.Mode = "inject"
@@ -265,7 +305,13 @@ func (r *afRunner) runCase(id int, cs afCase) error {
 	for run := 0; run < cs.Decodes; run++ {
 		var cf *ociauth.ConfigFile
 		var lerr error
-		if p := afCatch(func() { cf, lerr = ociauth.LoadWithEnv(runner, env) }); p != nil {
+		// exec mode, every other load: no runner is passed, LoadWithEnv makes its default one
+		// (ExecHelperWithEnv(env)); what was run is then known from the programs' own notes only
+		useRunner, runnerName := runner, "wrapped"
+		if cs.Mode == "exec" && run%2 == 1 {
+			useRunner, runnerName = nil, "default"
+		}
+		if p := afCatch(func() { cf, lerr = ociauth.LoadWithEnv(useRunner, env) }); p != nil {
 			r.emit(afEv{"op": "panic", "where": "LoadWithEnv", "run": run, "panic": fmt.Sprint(p)})
 			continue
 		}
@@ -290,6 +336,11 @@ func (r *afRunner) runCase(id int, cs afCase) error {
 		if n > 0 {
 			order = append(order, order[0])
 		}
+		if cs.Mode == "exec" { // and once more backwards through the same ConfigFile
+			for i := len(order) - 2; i >= 0; i-- {
+				order = append(order, order[i])
+			}
+		}
 		for _, j := range order {
 			h := hosts[j]
 			calls = []call{}
@@ -300,19 +351,34 @@ func (r *afRunner) runCase(id int, cs afCase) error {
 				r.emit(afEv{"op": "panic", "where": "EntryForRegistry", "run": run, "host": h, "panic": fmt.Sprint(p)})
 				continue
 			}
+			ran := []call{} // exec mode: the programs that noted a run during this lookup
+			if logFile != "" {
+				data, _ := os.ReadFile(logFile)
+				os.Remove(logFile)
+				for _, ln := range strings.Split(string(data), "\n") {
+					if nm, u, ok := strings.Cut(ln, "\t"); ok {
+						ran = append(ran, call{nm, afStr(u)})
+					}
+				}
+			}
 			class, msg := "none", ""
 			if err != nil {
 				msg = err.Error()
 				switch {
 				case errors.Is(err, ociauth.ErrHelperNotFound):
 					class = "nobinary"
-				case lastRunnerErr != nil && err == lastRunnerErr:
+				case runnerName == "wrapped" && lastRunnerErr != nil && err == lastRunnerErr:
 					class = "helper" // the helper's own error, handed through
+				case runnerName == "default" && len(ran) > 0:
+					class = "helper" // an error after a helper program ran
 				default:
 					class = "table"
 				}
 			}
-			r.emit(afEv{"op": "lookup", "run": run, "host": h, "hostS": string(h), "ok": err == nil, "class": class, "msg": msg,
+			if runnerName == "default" {
+				calls = ran
+			}
+			r.emit(afEv{"op": "lookup", "run": run, "runner": runnerName, "ran": ran, "host": h, "hostS": string(h), "ok": err == nil, "class": class, "msg": msg,
 				"refresh": afStr(entry.RefreshToken), "access": afStr(entry.AccessToken),
 				"user": afStr(entry.Username), "pass": afStr(entry.Password), "calls": calls})
 		}
@@ -565,7 +631,7 @@ func afRandCase(rnd *rand.Rand) afCase {
 		c.Auths = append(c.Auths, e)
 	}
 	names := []string{"A", "B", "osxkeychain"}
-	kinds := []string{"creds", "token", "notfound", "nobinary", "error"}
+	kinds := []string{"creds", "token", "notfound", "nobinary", "error", "useronly", "secretonly", "emptyobj", "urlonly", "extra", "mixed"}
 	for _, nm := range names {
 		c.Helpers[nm] = afBeh{Kind: kinds[rnd.Intn(len(kinds))], User: afStr(nm + "u" + afRandBytes(rnd, rnd.Intn(2), afAscii)), Secret: afStr(nm + "s" + afRandBytes(rnd, rnd.Intn(3), afAscii))}
 	}
